@@ -423,6 +423,8 @@ class Interp:
                     raise AbsMutation(f"store into {obj._cls}.{t.attr} ({src(t)})",
                                       loc(fi.unit.path, t) if fi else "")
                 obj._f[t.attr] = v
+            elif isinstance(obj, Native):
+                setattr(obj, t.attr, v)
             else:
                 raise AnalysisError("ABSINT", f"attribute store outside fragment: {src(t)}")
         elif isinstance(t, ast.Subscript):
